@@ -359,7 +359,10 @@ package interpreter
 //@   assumed
 //@   nofail
 //@   env MemoryMeteringError ComputationMeteringError
-//@   ensures inty(result) && kind(result) == ghostof(staticType, "ikind") && mval(result) == num(value)
+//@   ensures inty(result) && kind(result) == ghostof(staticType, "ikind")
+// the int8 argument is converted to the target's Go representation: unchanged for signed kinds and Int; for unsigned
+// kinds a negative argument wraps (uint8(value), uint16(value), ... and uint64(value) for the 64-bit and wider kinds)
+//@   ensures mval(result) == ite(num(value) >= 0 || ghostof(result, "haslo") == 0 || ghostof(result, "lo") < 0, num(value), num(value) + ite(ghostof(result, "hashi") != 0 && ghostof(result, "hi") < pow2(64), ghostof(result, "hi") + 1, pow2(64)))
 // member(x): x is start + k*step for some k >= 0 and not beyond end
 //@ spec rmember(x, s, e, st) = ite(st > 0, s <= x && x <= e, e <= x && x <= s) && emod(x - s, abs(st)) == 0
 //@ func isNeedleAfterStartUpToEnd
